@@ -45,13 +45,17 @@ TIE = ("D: real patching.patch_obj / application.apply against the stateful fake
        "(thorough) + random contents; S: every patch_obj call of whole-operator simulations replayed through the model")
 LEVEL_TEXT = (
     "Lean theorems for ALL patch contents (well-formed field dicts x fn lists), with/without a status subresource, all "
-    "foreign writes before any of the four requests and all 404/422 injections: merge_delivered (+ the witness that "
-    "`status: null` is dropped under a subresource), routed_by_subresource, fns_atomic, conflict_keeps_all_fns, "
-    "block/allow idempotence, carry_forward (one application to the then-fresh state; re-application is harmless for "
-    "membership, and the order-level witness), silent_404, same_object_partial (no recreate during the call) and the "
-    "negation of the full same_object: name_reuse_witness. The model is hand-written and tied to the real "
-    "patch_obj/apply by a differential run (exhaustive over the stated grid in the thorough tier) and to the "
-    "whole operator by replaying every observed patch_obj call.")
+    "foreign writes (edit / finalizer edit / delete / delete-and-recreate) before any of the four requests and all 404/422 "
+    "injections: merge_delivered, routed_by_subresource, merge_complete (+ status_null_dropped_witness: `status: null` is "
+    "dropped under a subresource, finding C08-F1), fns_atomic, conflict_keeps_all_fns, remaining_only_after_refusal, "
+    "block_idem / allow_idem / foreign_finalizers_untouched, carry_forward (exactly one application to the then-fresh state) "
+    "and carry_forward_not_repeated, reapply_membership (+ reapply_order_witness: re-application after a status-JSON conflict "
+    "can permute a mixed fn list), silent_404, raised_only_on_merge_422, same_object_partial (no recreate under the name "
+    "during the call) and the negation of the full same_object: name_reuse_witness (finding F2). The model is hand-written; "
+    "it is tied to the real patch_obj/apply by a differential run (complete over the stated 27540-case grid in the thorough "
+    "tier, sampled in quick, plus random contents) and to the whole operator by replaying every observed patch_obj call. "
+    "F5 (stale allow_deletion carried after a 422) is NOT a C08 violation: the property prescribes exactly that the "
+    "transformation is carried and re-applied to a fresh state; whether it is still wanted is C06's clause.")
 THEOREMS = [("Kopf.Props.C08", "Kopf.C08." + n) for n in [
     "merge_delivered", "routed_by_subresource", "merge_complete", "status_null_dropped_witness",
     "fns_atomic", "conflict_keeps_all_fns", "remaining_only_after_refusal",
@@ -69,7 +73,8 @@ RULE = (
     "one request was sent")
 TRUSTED = [
     "harness/sim/fakeapi.py: merge-patch / json-patch(test) / status-subresource / finalizer+deletionTimestamp semantics",
-    "jsonpatch.JsonPatch.from_diff is taken by its contract (ops that turn the first document into the second)",
+    "jsonpatch.JsonPatch.from_diff is taken by its contract (ops that turn the first document into the second); "
+    "harness/rfc.py applies add/remove/replace/test/move/copy",
     "the abstraction: system metadata fields and metadata.finalizers are split off the body; JSON-patch ops are "
     "compared by their effect on the body they were computed from",
 ]
